@@ -745,6 +745,25 @@ class Program:
             return self._method(fi, bt, namearg.value, call, len(call.args),
                                 False)
         if prefix is None:
+            names = self._table_values(fi, namearg)
+            if names:
+                # getattr(self, TABLE[x]) / TABLE.get(x) for a module-level
+                # literal table of method names: exactly those methods
+                bt = self.type_of(fi, fi.module, recv)
+                classes = [t[2:] for t in bt if t.startswith("C:")] \
+                    or list(m.classes)
+                out, seen = [], set()
+                for cq in classes:
+                    for k in [cq] + m.subclasses(cq):
+                        for nm in names:
+                            meth = m.lookup_method(k, nm)
+                            if meth is not None and \
+                                    meth.qualname not in seen:
+                                seen.add(meth.qualname)
+                                out.append(Callee("repo", meth, how="cha",
+                                                  recv=k))
+                if out:
+                    return out
             return [Callee("slot", name=src(getattr_call), ambiguous=True,
                            how="reflective-unknown")]
         bt = self.type_of(fi, fi.module, recv)
@@ -764,6 +783,36 @@ class Program:
                             seen.add(meth.qualname)
                             out.append(Callee("repo", meth, how="cha",
                                               recv=k))
+        return out
+
+    def _table_values(self, fi, e, _depth=0):
+        """String values of a module-level literal dict when `e` is a lookup
+        in it (T[x], T.get(x)), directly or through a local bound once."""
+        m = self.model
+        if isinstance(e, ast.Name) and _depth < 2:
+            binds = [n.value for n in walk_shallow(fi.node)
+                     if isinstance(n, ast.Assign) and len(n.targets) == 1
+                     and isinstance(n.targets[0], ast.Name)
+                     and n.targets[0].id == e.id]
+            if len(binds) == 1:
+                return self._table_values(fi, binds[0], _depth + 1)
+            return None
+        tbl = None
+        if isinstance(e, ast.Subscript):
+            tbl = e.value
+        elif isinstance(e, ast.Call) and isinstance(e.func, ast.Attribute) \
+                and e.func.attr == "get" and e.args:
+            tbl = e.func.value
+        if not isinstance(tbl, ast.Name) or self._is_local(fi, tbl.id):
+            return None
+        vals = fi.module.assigns.get(tbl.id)
+        if not vals or len(vals) != 1 or not isinstance(vals[0], ast.Dict):
+            return None
+        out = []
+        for v in vals[0].values:
+            if not (isinstance(v, ast.Constant) and isinstance(v.value, str)):
+                return None
+            out.append(v.value)
         return out
 
     # ------------------------------------------------------------ call graph
